@@ -632,6 +632,38 @@ def check_call_contexts(ctx_kind):
         return m
     uncached_body.__name__ = "CUncached"
     CUncached = h.generator(uncached_body, enable_cache=False)
+    if ctx_kind == "library-result-handed-on":
+        # a memoised module of a LIBRARY generator (defined in another Python module), returned as its own result by a user
+        # generator: one module, one export name - before and after, alone and inside a design
+        from hdl21.generators import Series, Wrapper
+        from hdl21.qualname import qualname
+        U = h.Module(name="CtxUnit")
+        U.i, U.o = h.Port(), h.Port()
+        U.r = h.R(r=1)(p=U.i, n=U.o)
+        lib = {"series": Series(unit=U, conns=("i", "o"), nser=2), "wrapper": Wrapper(U)}
+        before = {k: qualname(v) for k, v in lib.items()}
+        pkg0 = [m.name for m in h.to_proto(lib["series"]).modules]
+
+        @h.generator
+        def CMine(p: CP) -> h.Module:
+            return Series(unit=U, conns=("i", "o"), nser=2) if p.width == 2 else Wrapper(U)
+        got = {"series": CMine(width=2), "wrapper": CMine(width=1)}
+        for k in lib:
+            if got[k] is not lib[k]:
+                if k == "wrapper":
+                    continue          # (Wrapper is a plain function, not a memoised generator)
+                return ("memo.identity", f"{ctx_kind}: the library's generator was run again for equal parameters ({k})", w)
+            if qualname(lib[k]) != before[k]:
+                return ("names.two-names", f"{ctx_kind}: the module {before[k]} is called {qualname(lib[k])} once a user generator "
+                                           f"has returned it", w)
+        t2 = h.Module(name="CtxLibTop")
+        t2.a, t2.b = h.Signal(), h.Signal()
+        t2.x = lib["series"](i=t2.a, o=t2.b)
+        t2.y = CMine(width=2)(i=t2.b, o=t2.a)
+        names = [m.name for m in h.to_proto(t2).modules]
+        if len(set(names)) != len(names) or not set(pkg0) <= set(names):
+            return ("names.two-names", f"{ctx_kind}: exported alone the modules were {pkg0}, inside a design {names}", w)
+        return None
     first = CInner(width=4)
     top = h.Module(name="CtxTop")
     top.s = h.Signal(width=4)
@@ -645,6 +677,29 @@ def check_call_contexts(ctx_kind):
         top.p = CMid(width=4)()
     elif ctx_kind == "after-export-of-user":
         h.to_proto(CMid(width=4))
+    elif ctx_kind in ("inside-failing-call", "inside-failing-call-deep"):
+        # the equal call is made (successfully) from inside a generator whose body raises afterwards: what it returned is
+        # THE module for those parameters all the same
+        held = []
+
+        @h.generator
+        def CFails(p: CP) -> h.Module:
+            held.append(CMid(width=4) if ctx_kind.endswith("deep") else CInner(width=4))
+            held.append(CInner(width=p.width + 7))
+            raise ValueError("the enclosing body fails after its sub-calls returned")
+        for _ in range(2):
+            try:
+                CFails(width=4)
+            except ValueError:
+                pass
+            else:
+                return ("memo.failing", f"{ctx_kind}: the failing generator returned", w)
+        if not ctx_kind.endswith("deep") and held[0] is not first:
+            return ("memo.identity", f"{ctx_kind}: the call made inside the failing body returned another module", w)
+        if CInner(width=11) is not held[1]:
+            return ("memo.identity", f"{ctx_kind}: a module first generated inside a body that failed later is generated anew by the next equal call", w)
+        top.extra = held[1](a=h.Concat(top.s, top.s, top.s[0:3]))
+        runs["n"] -= 1          # (width=11 ran once, on purpose)
     again = CInner(width=4)
     top.again = again(a=top.s)
     if again is not first:
@@ -656,7 +711,7 @@ def check_call_contexts(ctx_kind):
     except Exception as e:
         return ("memo.export", f"{ctx_kind}: the design does not export: {type(e).__name__}: {str(e)[:120]}", w)
     names = [m.name for m in pkg.modules]
-    if len(set(names)) != len(names) or sum("CInner" in n for n in names) != 1:
+    if len(set(names)) != len(names) or sum("CInner(width=4)" in n for n in names) != 1:
         return ("names.collide", f"{ctx_kind}: exported module names {names}", w)
     return None
 
@@ -749,11 +804,11 @@ def run(ctx):
                          "elaborate and to_proto): the same call returns the same module afterwards, the body runs once",
                     bound="3 placements x 2 entry points", key_of=repr)
     ctx.run_bounded("call-contexts", ["module-level", "cached-parent", "uncached-parent", "uncached-deep", "after-elaboration",
-                                      "after-export-of-user"], check_call_contexts,
+                                      "after-export-of-user", "inside-failing-call", "inside-failing-call-deep", "library-result-handed-on"], check_call_contexts,
                     rule="equal calls of one cached generator from module level, from a cached generator's body, from the body "
                          "of a generator with enable_cache=False (directly / two levels down), after its result was elaborated "
-                         "or a user of it exported: identical Module, body run once, one exported module",
-                    bound="6 contexts", key_of=repr)
+                         "or a user of it exported, from inside a body that raises afterwards: identical Module, body run once, one exported module",
+                    bound="9 contexts", key_of=repr)
     ctx.run_bounded("string-pair-names", ALPHABETS if ctx.tier == "thorough" else ALPHABETS[:3], check_string_pairs,
                     rule="every pair of strings built from up to three pieces of a small alphabet (a letter, the ` b=` "
                          "separator shape, `=`, blank, tab, line breaks, `None`): different pairs get different names",
